@@ -171,6 +171,21 @@ def run_script(sc, sudachipy, dic=None, point=None, pretoks=None):
                 stats["values"] += len(got)
                 if got != op["expect"]:
                     raise Mismatch("result-differs-from-sequential", "pretokenizer", {"python": got[:12], "core": op["expect"][:12], "handler": op["handler"]})
+            elif kind == "tokenize_surrogate":
+                tok, tspec = toks[op["t"]]
+                text = op["before"] + chr(op["surrogate"]) + op["after"]
+                try:
+                    res = tok.tokenize(text)
+                except Exception:  # noqa: UnicodeEncodeError is the expected outcome
+                    continue
+                pos = 0
+                for i, m in enumerate(res):
+                    if text[m.begin():m.end()] != m.raw_surface() or m.begin() != pos:
+                        raise Mismatch("result-differs-from-core", "text[begin:end]", {"morpheme": i, "slice": repr(text[m.begin():m.end()])[:80],
+                                                                                        "raw_surface": repr(m.raw_surface())[:80], "note": "text with a lone surrogate was accepted"})
+                    pos = m.end()
+                if len(res) and pos != len(text):
+                    raise Mismatch("result-differs-from-core", "text[begin:end]", {"end": pos, "len": len(text), "note": "text with a lone surrogate was accepted"})
             elif kind == "tokenize":
                 tok, tspec = toks[op["t"]]
                 kw = {}
